@@ -543,6 +543,9 @@ func init() {
 				specs = append(specs, d.NewSpec("layoutexh", fmt.Sprintf("lay-%d", i), i, 8))
 			}
 			d.RunWorkers(specs, 16)
+			if !d.Quick() {
+				d.runFuzz("FuzzC09Escape", 3_000_000, "C09:fuzz")
+			}
 			d.Extra["exhaustive"] = true
 			d.Extra["exhaustive_spaces"] = []string{fmt.Sprintf("all byte strings of length <= %d", L), fmt.Sprintf("boundary alphabet, length %d..%d", L+1, bl), "all strings of length 1..2 as key/value in both encoders"}
 		},
